@@ -9,6 +9,21 @@ from . import writers as WR
 DEPENDS = ['sync', 'writers']
 
 
+def read_view(h):
+    """(content, pos) of a readable binary stream handed to a write path: a caller-supplied abstract stream or a raw
+    file opened 'rb'."""
+    if isinstance(h, EM.AbsStream):
+        def sp(p):
+            h.pos = SInt.of(p)
+        return NS(content=h.content, pos=h.pos, set_pos=sp)
+    if isinstance(h, EM.FileObj) and 'r' in h.mode:
+        def sp(p):
+            h.kpos = SInt.of(p)
+        return NS(content=h.content(), pos=h.kpos, set_pos=sp)
+    from pyvc.values import Unsupported
+    raise Unsupported(f'read handle {h!r}')
+
+
 # ----------------------------------------------------------------------------- _write_data_to_packfile
 def mk_pack_handle(vc, w, path=None):
     """An open append-mode pack handle: arbitrary flushed content, arbitrary pending buffer, cursor at EOF."""
@@ -99,12 +114,14 @@ class WriteDataToPackfile(CUnit):
         ph = a.pack_handle
         yield 'append_mode_binary_handle', SBool.of(isinstance(ph, EM.FileObj) and ph.mode == 'ab' and not ph.closed)
         yield 'pack_cursor_at_end', ph.kpos == ph.content().length()
-        yield 'read_cursor_in_range', b_and(a.read_handle.pos >= 0, a.read_handle.pos <= a.read_handle.content.length())
+        rv = read_view(a.read_handle)
+        yield 'read_cursor_in_range', b_and(rv.pos >= 0, rv.pos <= rv.content.length())
 
     def snapshot(self, vc, a):
         rh, ph = a.read_handle, a.pack_handle
-        o = NS(rest=rh.content.slice(rh.pos, None), pos=rh.pos, logical=ph.logical(), content=ph.content(),
-               buf=SBytes.of(ph.buf), tell=ph.kpos + slen(ph.buf))
+        rv = read_view(rh)
+        o = NS(rest=rv.content.slice(rv.pos, None), pos=rv.pos, logical=ph.logical(), content=ph.content(),
+               buf=SBytes.of(ph.buf), tell=ph.kpos + slen(ph.buf), rv=rv)
         vc.ghost['$rest0'], vc.ghost['$pos0'], vc.ghost['$logical0'] = o.rest, o.pos, o.logical
         vc.ghost['$content0'], vc.ghost['$buf0'] = o.content, SBytes.of(ph.buf)
         return o
@@ -142,7 +159,7 @@ class WriteDataToPackfile(CUnit):
             vc.assume(implies(cflag, b_and(EM.zvalid(enc), EM.dec(True, enc) == o.rest, enc.length() > 0)))
             vc.assume(implies(b_not(cflag), enc == o.rest))
         split_pack_handle(vc, ph, o.content, o.buf, enc)
-        rh.pos = rh.content.length()
+        o.rv.set_pos(o.rv.content.length())
         a.enc = enc
         EM.effect(I, 'file_write', file=ph)
         hk = None if a.hash_type is None else EM.H(conc(a.hash_type), o.rest)
@@ -171,7 +188,7 @@ def _loop_pack_id(vc, L):
     known = L.__getattr__('$known')
     pid = SInt.of(L.pack_id)
     yield 'walks_upwards_from_the_cached_id', pid >= start
-    yield 'every_skipped_pack_is_full', Forall(lambda i: implies(b_and(i >= start, i < pid), pack_full(vc, w, c, i, known)), sort='int')
+    yield 'every_skipped_pack_is_full', Forall(lambda i: implies(b_and(i >= start, i < pid), pack_full(vc, w, c, i, known)), sort='pack')
 
 
 class GetPackIdToWriteTo(CUnit):
@@ -202,7 +219,7 @@ class GetPackIdToWriteTo(CUnit):
             yield 'cached_id_nonneg', SInt.of(cur) >= 0
         w = vc.world
         # layout: pack paths are files, never directories
-        yield 'pack_paths_are_files', Forall(lambda i: b_not(w.is_dir(pack_pid(c, i))), sort='int')
+        yield 'pack_paths_are_files', Forall(lambda i: b_not(w.is_dir(pack_pid(c, i))), sort='pack')
 
     def snapshot(self, vc, a):
         c = a.self
@@ -221,13 +238,13 @@ class GetPackIdToWriteTo(CUnit):
         r = SInt.of(ret)
         yield 'not_below_the_cached_id', r >= o.start
         yield 'chosen_pack_is_absent_or_below_target', b_not(pack_full(vc, w, c, r, o.known))
-        yield 'every_skipped_pack_is_full', Forall(lambda i: implies(b_and(i >= o.start, i < r), pack_full(vc, w, c, i, o.known)), sort='int')
+        yield 'every_skipped_pack_is_full', Forall(lambda i: implies(b_and(i >= o.start, i < r), pack_full(vc, w, c, i, o.known)), sort='pack')
         yield 'result_is_cached', SInt.of(c.f['_current_pack_id']) == r
         yield 'world_untouched', b_and(SBool(w.ent == o.ent), SBool(w.idata == o.idata))
 
     def havoc(self, vc, I, a):
         c = a.self
-        r = vc.ikey(SInt.fresh('pack_id'))
+        r = vc.ikey(SInt.fresh('pack_id'), 'pack')
         c.f['_current_pack_id'] = r
         return r
 
@@ -292,6 +309,76 @@ class LockPack(CUnit):
             yield 'refused_only_when_locked', b_and(SBool.of(e.cls.name == 'FileExistsError'), o.lock != 0)
         yield 'no_descriptor_leaked', SBool.of([f.num for f in w.open_fds] == o.fds)
 
+
+class LockCm:
+    """Callee-mode summary of lock_pack, exactly its verified contract: enter creates the lock file exclusively and
+    opens the pack in append mode at its end; exit (normal or exceptional) closes the pack (flushing it) and removes
+    the lock file."""
+
+    def __init__(self, c, i, allow):
+        self.c, self.i, self.allow = c, i, allow
+        self.fh = None
+
+    def sym_enter(self, I):
+        vc = I.vc
+        w = FS.fs(I)
+        c, i = self.c, self.i
+        lp = lock_pid(c, i)
+        if vc.branch(b_or(w.inode_at(lp) != 0, w.is_dir(lp)), label='lock_pack:locked'):
+            EM.raise_py('FileExistsError', origin='lock_pack')
+        if EM.fault(I, 'lock_pack'):
+            EM.raise_py('OSError', origin='lock_pack')
+        lock_ino = w.new_inode(vc, b'')
+        w.set_entry(lp, lock_ino)
+        EM.effect(I, 'lock_acquired', pack=i)
+        pp = pack_path(c, i)
+        ino = w.inode_at(pp.pid())
+        if vc.branch(ino == 0, label='lock_pack:new_pack'):
+            ino = w.new_inode(vc, b'')
+            w.set_entry(pp.pid(), ino)
+            from .cpack import kind, PACK, packno
+            vc.assume(b_and(kind(ino) == PACK, packno(ino) == i))     # ghost labelling of the fresh inode: the file of pack i
+            EM.effect(I, 'create', path=pp, ino=ino, file=None)
+        self.fh = EM.FileObj(w, ino, 'ab', path=pp, at_end=True)
+        return self.fh
+
+    def sym_exit(self, I, exc):
+        w = I.vc.world
+        try:
+            self.fh.m_close(I)
+        finally:
+            w.set_entry(lock_pid(self.c, self.i), 0)
+            EM.effect(I, 'lock_released', pack=self.i)
+        return False
+
+
+def _lockpack_bind(self, I, f, args, kwargs):
+    a = Unit.bind_actual(self, I, f, args, kwargs)
+    p = a.pack_id
+    if isinstance(p, EM.IntStr):
+        a.i = p.n
+    elif isinstance(p, str):
+        a.i = SInt.of(int(p))
+    else:
+        from pyvc.values import Unsupported
+        raise Unsupported('lock_pack of a pack id that is not str(int)')
+    return a
+
+
+def _lockpack_havoc(self, vc, I, a):
+    return LockCm(a.self, a.i, a.allow_repack_pack)
+
+
+def _lockpack_pre_callee(self, vc, a):
+    w = vc.world
+    yield 'valid_pack_id', b_or(a.i >= 0, SBool.of(a.allow_repack_pack) & (a.i == -1))
+    yield 'pack_path_is_a_file', b_and(b_not(w.is_dir(pack_pid(a.self, a.i))), b_not(w.is_dir(lock_pid(a.self, a.i))))
+
+
+LockPack.bind_actual = _lockpack_bind
+LockPack.havoc = _lockpack_havoc
+LockPack.pre_callee = _lockpack_pre_callee
+LockPack.post_callee = lambda self, vc, a, o, ret: ()
 
 UNITS += [GetPackIdToWriteTo(), LockPack()]
 
